@@ -51,6 +51,10 @@ G0 == [ sc      |-> "none",
         cmode   |-> <<>>,      \* client -> "rw" | "ro" | "hist"
         cver    |-> <<>>,      \* client -> its current version set
         fresh   |-> <<>>,      \* client -> versions PUT by it during the current API call
+        inflight|-> <<>>,      \* client -> the autocommit statement it is executing (from the `call` event)
+        invac   |-> <<>>,      \* client -> cutoff of the vacuum it is executing
+        acked   |-> {},        \* versions whose commit has returned to its caller
+        ackedAt |-> <<>>,      \* client -> facts acknowledged before its current open began
         txputs  |-> <<>>,      \* client -> version PUTs since BEGIN
         txkeys  |-> <<>>,      \* client -> keys written since BEGIN
         obs     |-> {},        \* observations <<facts, rows>> of completed opens (C01)
@@ -70,7 +74,7 @@ G0 == [ sc      |-> "none",
 RowSet(rows) == { <<rows[i][1], [c \in Cols |-> rows[i][1 + ColIdx(c)]]>> : i \in DOMAIN rows }
 
 StmtOf(e) ==
-  [kind |-> e.kind, key |-> e.key, wt |-> e.wt, n |-> e.seq,
+  [kind |-> e.kind, key |-> e.key, wt |-> e.wt, n |-> IF e.ev = "call" THEN e.seq ELSE IF Has(e, "cseq") THEN e.cseq ELSE e.seq,
    cols |-> IF e.kind = "ins"
             THEN [c \in Cols |-> IF e.vals[c] = "NONE" THEN R!NullV ELSE e.vals[c]]
             ELSE [c \in {x \in Cols : e.vals[x] # "NONE"} |-> e.vals[c]]]
@@ -96,7 +100,7 @@ V(prop, pred, e, detail) ==
 (* a predicate that several properties share *)
 VAll(ps, suffix, e, detail) == UNION {V(p, p \o suffix, e, detail) : p \in ps}
 
-IdealProps == {"C02", "C04", "C05", "C08", "C09", "C10", "C11", "C13", "C14", "C15", "C16"}
+IdealProps == {"C02", "C03", "C04", "C05", "C08", "C09", "C10", "C11", "C13", "C14", "C15", "C16"}
 NoFault(c) == c \notin g.fault
 
 CheckRows(e, c, facts, rows, where) ==
@@ -117,8 +121,14 @@ OnReset(e) ==
 
 OnS3(e) ==
   LET c == e.c
+      \* the content of a version is known when it is PUT: its parents' facts, what its writer had accepted and
+      \* not committed, and the statement the writer is executing; a vacuum's commit holds the purged view
+      putfacts == IF c \in DOMAIN g.invac THEN R!Purge(Get(g.cfacts, c, {}), g.invac[c])
+                  ELSE (UNION {Get(g.vfacts, p, {}) : p \in Range(e.parents)}) \cup Get(g.cpend, c, {})
+                       \cup (IF c \in DOMAIN g.inflight THEN {g.inflight[c]} ELSE {})
       g1 == IF e.op = "PUT" /\ e.res = "ok" /\ e.cls = "cur"
             THEN [g EXCEPT !.cur = @ \cup {e.name},
+                           !.vfacts = IF e.name \in DOMAIN @ THEN @ ELSE Put(@, e.name, putfacts),
                            !.vpar = Put(@, e.name, Range(e.parents)),
                            !.vcre = Put(@, e.name, e.created),
                            !.vby  = Put(@, e.name, c),
@@ -139,16 +149,23 @@ OnS3(e) ==
 (* the versions client c PUT during the API call that just returned get    *)
 (* their facts: parents' facts plus what c had accepted and not committed  *)
 Finalize(gg, c, pend) ==
-  LET fr == Get(gg.fresh, c, <<>>)
-      RECURSIVE Go(_, _)
-      Go(vf, i) == IF i > Len(fr) THEN vf
-                   ELSE Go(Put(vf, fr[i], (UNION {Get(vf, p, {}) : p \in Get(gg.vpar, fr[i], {})}) \cup pend), i + 1)
-  IN [gg EXCEPT !.vfacts = Go(gg.vfacts, 1),
-                !.fresh = Put(@, c, <<>>),
-                !.cpend = Put(@, c, IF Len(fr) > 0 THEN {} ELSE pend)]
+  LET fr == Get(gg.fresh, c, <<>>) IN
+  [gg EXCEPT !.fresh = Put(@, c, <<>>),
+             !.acked = @ \cup Range(fr),
+             !.inflight = [x \in DOMAIN @ \ {c} |-> @[x]],
+             !.cpend = Put(@, c, IF Len(fr) > 0 THEN {} ELSE pend)]
+
+OnCall(e) ==
+  LET c == e.c IN
+  [g2 |-> IF e.op = "stmt" /\ e.intx = 0 THEN [g EXCEPT !.inflight = Put(@, c, StmtOf(e)), !.fresh = Put(@, c, <<>>)]
+          ELSE IF e.op = "vacuum" THEN [g EXCEPT !.invac = Put(@, c, e.cutoff), !.fresh = Put(@, c, <<>>)]
+          ELSE IF e.op \in {"commit"} THEN [g EXCEPT !.fresh = Put(@, c, <<>>)]
+          ELSE g,
+   v |-> {}]
 
 OnOpenStart(e) ==
   [g2 |-> [g EXCEPT !.fresh = Put(@, e.c, <<>>),
+                    !.ackedAt = Put(@, e.c, FactsOfVersions(g.acked)),
                     !.cmode = IF e.mode = "refresh" THEN @ ELSE Put(@, e.c, e.mode)],
    v |-> {}]
 
@@ -185,7 +202,13 @@ OnOpenDone(e) ==
             THEN V("C11", "C11_StableOnNoop", e, [before |-> Get(g.cver, c, {}), after |-> vers]) ELSE {}
       v5 == IF Has(e, "same") /\ e.rows_outcome = "ok" /\ rows # Get(g.lastrows, c, {})
             THEN V(e.same, e.same \o "_RowsUnchanged", e, [before |-> Get(g.lastrows, c, {}), after |-> rows]) ELSE {}
-  IN [g2 |-> g2, v |-> v1 \cup v2 \cup v3 \cup v4 \cup v5]
+      \* C03: the opener's view contains every version whose commit had returned before its open began
+      v6 == IF ~(Get(g.ackedAt, c, {}) \subseteq facts)
+            THEN V("C03", "C03_OpenSeesAcked", e, [missing |-> Get(g.ackedAt, c, {}) \ facts, versions |-> vers]) ELSE {}
+      \* C03: a final open of the quiescent bucket contains every acknowledged commit
+      v7 == IF Has(e, "tag") /\ e.tag = "final" /\ ~(FactsOfVersions(g.acked) \subseteq facts)
+            THEN V("C03", "C03_EventuallyContained", e, [missing |-> FactsOfVersions(g.acked) \ facts, versions |-> vers]) ELSE {}
+  IN [g2 |-> g2, v |-> v1 \cup v2 \cup v3 \cup v4 \cup v5 \cup v6 \cup v7]
 
 OnStmt(e) ==
   LET c == e.c
@@ -200,7 +223,10 @@ OnStmt(e) ==
                       !.attr = IF Has(e, "keep_wt") THEN @ ELSE Put(@, c, [a0 EXCEPT !.write_time = e.wt]),
                       !.laststmt = IF acc THEN Put(@, c, f) ELSE @,
                       !.txkeys = IF acc THEN Put(@, c, Get(@, c, {}) \cup {e.key}) ELSE @]
-      g1 == IF e.intx = 1 THEN [g0 EXCEPT !.cpend = Put(@, c, pend)] ELSE Finalize(g0, c, pend)
+      g1 == IF e.intx = 1 THEN [g0 EXCEPT !.cpend = Put(@, c, pend)]
+            ELSE IF e.outcome = "ok" THEN Finalize(g0, c, pend)
+            ELSE \* the call failed: nothing is acknowledged (a version it PUT before failing keeps its facts)
+                 [g0 EXCEPT !.fresh = Put(@, c, <<>>), !.inflight = [x \in DOMAIN @ \ {c} |-> @[x]]]
       g2 == IF e.intx = 0 /\ Has(e, "version") THEN [g1 EXCEPT !.cver = Put(@, c, Range(e.version))] ELSE g1
       ro == Get(g.cmode, c, "rw") \in {"ro", "hist"}
       prevver == Get(g.cver, c, {})
@@ -288,8 +314,13 @@ OnChanges(e) ==
       A == Ideal(FactsOfVersions(F))
       B == IF e.has_to THEN Ideal(FactsOfVersions(T)) ELSE Ideal(FactsOfVersions(g.cur))
       Rs == RowSet(e.rows)
+      named == F \cup (IF e.has_to THEN T ELSE {})
   IN IF e.outcome # "ok"
-     THEN [g2 |-> g, v |-> IF NoFault(c) THEN V("C12", "C12_NoFailure", e, [from |-> F, to |-> T, err |-> e.err]) \cup Unexpected(e, "s3db_changes") ELSE {}]
+     THEN \* without a fault, and with every named version still in the bucket, the query must not fail
+          [g2 |-> g, v |-> IF NoFault(c) /\ named \subseteq (g.cur \cup g.mrg)
+                           THEN V("C12", "C12_NoFailure", e, [from |-> F, to |-> T, err |-> e.err]) \cup Unexpected(e, "s3db_changes") ELSE {}]
+     ELSE IF ~((F \cup (IF e.has_to THEN T ELSE {})) \subseteq (g.cur \cup g.mrg))
+     THEN [g2 |-> g, v |-> V("C12", "C12_MissingVersionFails", e, [from |-> F, to |-> T, gone |-> (F \cup T) \ (g.cur \cup g.mrg), result |-> Rs])]
      ELSE [g2 |-> g,
            v |-> (IF ~(Rs \subseteq B) THEN V("C12", "C12_Sound", e, [from |-> F, to |-> T, extra |-> Rs \ B, result |-> Rs]) ELSE {})
                  \cup (IF ~((B \ A) \subseteq Rs) THEN V("C12", "C12_Complete", e, [from |-> F, to |-> T, missing |-> (B \ A) \ Rs, result |-> Rs]) ELSE {})
@@ -388,23 +419,20 @@ OnVacuum(e) ==
       ro == Get(g.cmode, c, "rw") \in {"ro", "hist"}
   IN IF e.outcome # "ok"
      THEN \* a vacuum that failed after its purge commit: the version it PUT holds the purged view
-          LET fr0 == Get(g.fresh, c, <<>>)
-              pf0 == R!Purge(Get(g.cfacts, c, {}), e.cutoff)
-              vf0 == [x \in DOMAIN g.vfacts \cup Range(fr0) |-> IF x \in Range(fr0) THEN pf0 ELSE g.vfacts[x]]
-          IN [g2 |-> [g EXCEPT !.vfacts = vf0, !.fresh = Put(@, c, <<>>), !.stepdel = Put(@, c, {})],
-              v |-> IF ro THEN {} ELSE Unexpected(e, "s3db_vacuum")]
+          [g2 |-> [g EXCEPT !.fresh = Put(@, c, <<>>), !.stepdel = Put(@, c, {}), !.invac = [x \in DOMAIN @ \ {c} |-> @[x]]],
+           v |-> IF ro THEN {} ELSE Unexpected(e, "s3db_vacuum")]
      ELSE
      LET cutoff == e.cutoff
          pf == R!Purge(Get(g.cfacts, c, {}), cutoff)
          fr == Get(g.fresh, c, <<>>)
-         vf2 == [x \in DOMAIN g.vfacts \cup Range(fr) |-> IF x \in Range(fr) THEN pf ELSE g.vfacts[x]]
          del == Get(g.stepdel, c, {})
          delm == {d[2] : d \in {x \in del : x[1] = "mrg"}}
          exist == g.cur \cup g.mrg \cup {d[2] : d \in del}
          graph == AncOf(Range(e.version), exist)
          children(p) == {x \in graph : p \in Get(g.vpar, x, {})}
          cand == {p \in graph : children(p) # {} /\ \A x \in children(p) : Get(g.vcre, x, 0) <= cutoff}
-         g1 == [g EXCEPT !.vfacts = vf2, !.cfacts = Put(@, c, pf), !.cpend = Put(@, c, {}),
+         g1 == [g EXCEPT !.cfacts = Put(@, c, pf), !.cpend = Put(@, c, {}),
+                         !.acked = @ \cup Range(fr), !.invac = [x \in DOMAIN @ \ {c} |-> @[x]],
                          !.cver = Put(@, c, Range(e.version)), !.fresh = Put(@, c, <<>>),
                          !.lastcut = Put(@, c, cutoff), !.stepdel = Put(@, c, {})]
          v1 == IF ro THEN V("C13", "C13_WriteFails", e, [kind |-> "vacuum", outcome |-> e.outcome]) ELSE {}
@@ -419,6 +447,12 @@ OnVacuum(e) ==
                THEN V("C09", "C09_OnlySupersededDeleted", e, [cutoff |-> cutoff, deleted |-> delm \ cand]) ELSE {}
      IN [g2 |-> g1, v |-> v1 \cup v2 \cup v3 \cup v4 \cup v5]
 
+(* a default-time transaction over two tables of one connection: one write time *)
+OnTx2(e) ==
+  [g2 |-> g,
+   v |-> IF e.outcome # "ok" THEN Unexpected(e, "two-table transaction")
+         ELSE IF Cardinality(Range(e.times)) # 1 THEN V("C05", "C05_OneWriteTime", e, [times |-> Range(e.times), tables |-> 2]) ELSE {}]
+
 OnPlan(e) == [g2 |-> [g EXCEPT !.fault = @ \cup {e.c}], v |-> {}]
 OnHeal(e) == [g2 |-> [g EXCEPT !.fault = @ \ {e.c}], v |-> {}]
 
@@ -428,6 +462,7 @@ OnPanic(e) ==
 Handle(e) ==
   CASE e.ev = "reset"      -> OnReset(e)
     [] e.ev = "s3"         -> OnS3(e)
+    [] e.ev = "call"       -> OnCall(e)
     [] e.ev = "open_start" -> OnOpenStart(e)
     [] e.ev = "open_done"  -> OnOpenDone(e)
     [] e.ev = "stmt"       -> OnStmt(e)
@@ -444,6 +479,7 @@ Handle(e) ==
     [] e.ev = "conn_set"   -> OnConnSet(e)
     [] e.ev = "conn_get"   -> OnConnGet(e)
     [] e.ev = "vacuum"     -> OnVacuum(e)
+    [] e.ev = "tx2"        -> OnTx2(e)
     [] e.ev = "plan"       -> OnPlan(e)
     [] e.ev = "heal"       -> OnHeal(e)
     [] e.ev \in {"panic", "hang"} -> OnPanic(e)
